@@ -68,7 +68,6 @@ using namespace photon::fs;
 // exact-size aligned storage handed out by the stand-ins for malloc / posix_memalign (every block is a separate
 // static object whose size is exactly the requested size: touching one byte past it is an out-of-bounds access).
 // Sizes requested by the adaptor are aligned_length() = multiples of ALIGN in [ALIGN, CAP].
-#define NPOOL (CAP / 2)
 #define PL(n) alignas(8) static uint8_t PB_##n[n];
 PL(2) PL(4) PL(6) PL(8) PL(10) PL(12) PL(14) PL(16) PL(18) PL(20) PL(22) PL(24) PL(26) PL(28) PL(30) PL(32)
 PL(34) PL(36) PL(38) PL(40) PL(42) PL(44) PL(46) PL(48)
